@@ -168,6 +168,13 @@ func (g *goCompiler) comp(e Expr) (string, types.Type, bool) {
 			return "", nil, false
 		}
 		ty := g.v.resolveType(x.Type, g.pkg)
+		if i := strings.Index(x.Type, "."); i > 0 {
+			for _, p := range g.e.tpkgs {
+				if p.Name() == strings.TrimLeft(x.Type[:i], "*[]") {
+					g.imports[p.Path()] = true
+				}
+			}
+		}
 		return fmt.Sprintf("%s.(%s)", s, x.Type), ty, true
 	case *Quant:
 		return g.compQuant(x)
@@ -182,14 +189,16 @@ func (g *goCompiler) typeTest(tf *CallE, ty Expr, neg bool) (string, types.Type,
 	if !ok {
 		return "", nil, false
 	}
-	name := ""
-	switch t := ty.(type) {
-	case *Ident:
-		name = t.Name
-	case *TypeLit:
-		name = t.Name
-	default:
+	name := typeExprString(ty)
+	if name == "" {
 		return g.fail("typeof compared with a non-type")
+	}
+	if i := strings.Index(name, "."); i > 0 {
+		for _, p := range g.e.tpkgs {
+			if p.Name() == name[:i] {
+				g.imports[p.Path()] = true
+			}
+		}
 	}
 	r := fmt.Sprintf("func() bool { _, ok := interface{}(%s).(%s); return ok }()", s, name)
 	if neg {
@@ -419,6 +428,22 @@ func (g *goCompiler) compCall(x *CallE) (string, types.Type, bool) {
 	case "isInf":
 		s, _, ok := arg(0)
 		return fmt.Sprintf("math.IsInf(float64(%s), 0)", s), boolT, ok
+	case "same":
+		a, at, ok := arg(0)
+		if !ok {
+			return "", nil, false
+		}
+		b, _, ok := arg(1)
+		if isFloat(at) {
+			return fmt.Sprintf("(math.Float64bits(float64(%s)) == math.Float64bits(float64(%s)) || (math.IsNaN(float64(%s)) && math.IsNaN(float64(%s))))", a, b, a, b), boolT, ok
+		}
+		return fmt.Sprintf("(%s == %s)", a, b), boolT, ok
+	case "f2i64":
+		s, _, ok := arg(0)
+		return fmt.Sprintf("int64(math.Trunc(float64(%s)))", s), types.Typ[types.Int64], ok
+	case "f2u64":
+		s, _, ok := arg(0)
+		return fmt.Sprintf("uint64(math.Trunc(float64(%s)))", s), types.Typ[types.Uint64], ok
 	case "truncRTZ":
 		s, t, ok := arg(0)
 		return fmt.Sprintf("math.Trunc(%s)", s), t, ok
